@@ -422,6 +422,9 @@ class Effects:
                 r = self.root_of(recv, fi, fresh)
                 if r is not None and r[0] != 'fresh':
                     s.w((r[0], r[1], self._trim(r[2])), sid)
+                    if name in ("pop", "remove", "popitem", "setdefault"):
+                        # what these do (and whether they fail) depends on what the container holds: a read of its own
+                        s.r((r[0], r[1], self._trim(r[2])), sid + "#rmw")
             if recv is not None and name in EXTERNAL_STATEFUL:
                 r = self.root_of(recv, fi, fresh)
                 if r is not None and r[0] != 'fresh':
